@@ -82,25 +82,76 @@ def r1(ctx):
 def r2(ctx):
     b = ctx.fn(FNS[1])
     ins = b.calls(r"HashMap::<K, V, S, A>::insert$")
-    i = one(ins, "parameter_map.insert in get_auth_parameters_from_auth_header")
     ctx.count()
-    probs = []
-    if not b.in_cycle(i[0]):
-        probs.append("insert is not inside the parameter loop")
-    for a, s, c, truth in guard_conditions(b, i[0]):
-        if c["kind"] == "call" and re.search(r"HashMap::<K, V, S, A>::(contains_key|get|get_mut)$|Option::<T>::is_(some|none)$", c["callee"]):
-            probs.append("insert is conditional on a lookup (`%s`): first-wins" % c["callee"].split("::")[-1])
-    if b.calls(r"HashMap::<K, V, S, A>::entry$|Entry::<'a, K, V(, A)?>::or_insert\w*$|HashMap::<K, V, S, A>::try_insert$"):
-        probs.append("entry()/or_insert used on the parameter map")
-    if b.calls(r"Iterator::rev$|slice::<impl \[T\]>::rsplit\w*$|str>::rsplit\w*$|DoubleEndedIterator::\w+$"):
-        probs.append("parameters are iterated in reverse")
-    sp = [t for bi, t in b.calls(r"slice::<impl \[T\]>::split$")]
-    if not sp:
-        probs.append("forward split over the parameter list not found")
-    if probs:
-        yield VIOL("C19-R2", "from_auth_header/last-wins", "; ".join(probs), where=b.span_of_block(i[0]))
+    if not ins:
+        # sibling idiom: split(',') [.map(trim)] [.filter(non-empty)] .map(|p| -> (key, value) | Result<(key, value), E>)
+        # .collect::<[Result<]HashMap<_, _>[, E>]>(): FromIterator for HashMap inserts the items in order, a later key overwrites
+        cols = []
+        for bi, t in b.calls(r"Iterator::collect$"):
+            if "std::collections::HashMap<" not in t.get("resolved_full", ""):
+                continue
+            src, stages = pipeline_of(b, t["args"][0])
+            if src and src[0] == "def" and src[1]["kind"] == "call" and re.search(r"slice::<impl \[T\]>::split$|str>::split$", src[1]["term"]["callee"]):
+                cols.append((bi, t, [x for x in stages if x[0] != "into_iter"]))
+        cl = one(cols, "parameter_map.insert in get_auth_parameters_from_auth_header (or split(',')...collect::<HashMap>())")
+        names = [x[0] for x in cl[2]]
+        probs = []
+        if [n for n in names if n not in ("map", "filter")]:
+            probs.append("pipeline stages %s: only map / filter keep every occurrence in arrival order" % names)
+        if b.calls(r"Iterator::rev$|slice::<impl \[T\]>::rsplit\w*$|str>::rsplit\w*$|DoubleEndedIterator::\w+$"):
+            probs.append("parameters are iterated in reverse")
+        maps = [x for x in cl[2] if x[0] == "map" and "summary_operand" in x[2]]
+        kv = None
+        if maps:
+            t_ = maps[-1][2]
+            o_ = t_["args"][t_["summary_operand"]]
+            l_ = op_local(o_)
+            cands = []
+            work, seen_ = [l_], set()
+            while work:
+                x = work.pop()
+                if x in seen_ or x is None:
+                    continue
+                seen_.add(x)
+                for d in b.defs().get(x, []):
+                    if d["kind"] != "assign":
+                        continue
+                    rv = d["stmt"]["rv"]
+                    if rv["k"] == "use" and op_local(rv["op"]) is not None:
+                        work.append(op_local(rv["op"]))
+                    elif rv["k"] == "aggregate" and rv.get("tuple") and len(rv["ops"]) == 2:
+                        cands.append(rv["ops"])
+                    elif rv["k"] == "aggregate" and rv.get("variant") == "Ok" and rv["ops"]:
+                        work.append(op_local(rv["ops"][0]))
+            if len(cands) == 1:
+                kv = cands[0]
+        if kv is None:
+            probs.append("the (key, value) pair built by the last map stage was not found")
+        if probs:
+            yield MISSING("C19-R2", "from_auth_header/last-wins", "; ".join(probs), where=b.span_of_block(cl[0]))
+            return
+        yield PASS("C19-R2", "from_auth_header/last-wins", "split(',') pipeline (%s) collected into a HashMap: items inserted in arrival order, later keys overwrite" % names, [site(b, cl[0], "collect")])
+        k_op, v_op, site_blk = kv[0], kv[1], cl[0]
     else:
-        yield PASS("C19-R2", "from_auth_header/last-wins", "unconditional HashMap::insert in a forward split(',') loop", [site(b, i[0], "insert")])
+        i = one(ins, "parameter_map.insert in get_auth_parameters_from_auth_header")
+        k_op, v_op, site_blk = i[1]["args"][1], i[1]["args"][2], i[0]
+        probs = []
+        if not b.in_cycle(i[0]):
+            probs.append("insert is not inside the parameter loop")
+        for a, s, c, truth in guard_conditions(b, i[0]):
+            if c["kind"] == "call" and re.search(r"HashMap::<K, V, S, A>::(contains_key|get|get_mut)$|Option::<T>::is_(some|none)$", c["callee"]):
+                probs.append("insert is conditional on a lookup (`%s`): first-wins" % c["callee"].split("::")[-1])
+        if b.calls(r"HashMap::<K, V, S, A>::entry$|Entry::<'a, K, V(, A)?>::or_insert\w*$|HashMap::<K, V, S, A>::try_insert$"):
+            probs.append("entry()/or_insert used on the parameter map")
+        if b.calls(r"Iterator::rev$|slice::<impl \[T\]>::rsplit\w*$|str>::rsplit\w*$|DoubleEndedIterator::\w+$"):
+            probs.append("parameters are iterated in reverse")
+        sp = [t for bi, t in b.calls(r"slice::<impl \[T\]>::split$")]
+        if not sp:
+            probs.append("forward split over the parameter list not found")
+        if probs:
+            yield VIOL("C19-R2", "from_auth_header/last-wins", "; ".join(probs), where=b.span_of_block(i[0]))
+        else:
+            yield PASS("C19-R2", "from_auth_header/last-wins", "unconditional HashMap::insert in a forward split(',') loop", [site(b, i[0], "insert")])
     # key/value of the insert are parts[0], parts[1] of the split at '='
     def idx_of(o):
         od = b.origin_def(o)
@@ -117,10 +168,10 @@ def r2(ctx):
                 return [ci[0]["constindex"]]
         return []
 
-    ki, vi = idx_of(i[1]["args"][1]), idx_of(i[1]["args"][2])
+    ki, vi = idx_of(k_op), idx_of(v_op)
     if ki != [0] or vi != [1]:
         # cut by position: key = &p[..i], value = &p[i + 1..] with i = position of the first '='
-        if split_part(b, i[1]["args"][1], ord("=")) == 0 and split_part(b, i[1]["args"][2], ord("=")) == 1:
+        if split_part(b, k_op, ord("=")) == 0 and split_part(b, v_op, ord("=")) == 1:
             ki, vi = [0], [1]
     if ki != [0] or vi != [1]:
         # iterator form: key = it.next(), value = it.next() on one splitn(2, b'=') iterator, key taken first
@@ -142,11 +193,11 @@ def r2(ctx):
             sl_ = b.slice_op(o)
             nx = [c_ for c_ in sl_.find_calls(r"Iterator::next$") if "SplitN" in c_[1].get("resolved_full", "")]
             return nx
-        kn, vn = next_of(i[1]["args"][1]), next_of(i[1]["args"][2])
+        kn, vn = next_of(k_op), next_of(v_op)
         if len(kn) == 1 and len(vn) == 1 and kn[0][0] != vn[0][0] and b.dominates(kn[0][0], vn[0][0]):
             ki, vi = [0], [1]
     if ki != [0] or vi != [1]:
-        yield VIOL("C19-R2", "from_auth_header/insert-kv", "insert(key, value) is not (parts[0], parts[1]): key idx %s value idx %s" % (ki, vi), where=b.span_of_block(i[0]))
+        yield VIOL("C19-R2", "from_auth_header/insert-kv", "insert(key, value) is not (parts[0], parts[1]): key idx %s value idx %s" % (ki, vi), where=b.span_of_block(site_blk))
     else:
         yield PASS("C19-R2", "from_auth_header/insert-kv", "insert(parts[0], parts[1])", [])
 
